@@ -406,9 +406,9 @@ def min_by(vec: VyList, key=None, cmp=None, ctx=DEFAULT_CTX):
             return a < b
 
     return foldl(
-        lambda a, b, ctx=ctx: a
-        if cmp(key(a, ctx=ctx), key(b, ctx=ctx), ctx=ctx)
-        else b,
+        lambda a, b, ctx=ctx: b
+        if cmp(key(b, ctx=ctx), key(a, ctx=ctx), ctx=ctx)
+        else a,
         vec,
         ctx=ctx,
     )
